@@ -106,7 +106,10 @@ type State struct {
 	e       *Engine
 	id      int
 	frames  []*Frame
-	objs    []*Object
+	objs    []*Object // path-local objects (id = nbase + index)
+	nbase   int
+	over    map[int]*Object // per-path copies of base objects
+	overOwn bool
 	pc      []*T
 	subst   map[*T]*T
 	memo    map[*T]*T
@@ -220,6 +223,8 @@ func (st *State) clone() *State {
 	for k := range st.reached {
 		n.reached[k] = true
 	}
+	n.overOwn = false
+	st.overOwn = false
 	n.strOwn = false
 	st.strOwn = false
 	n.poolOwn = false
